@@ -445,7 +445,6 @@ func c14Set(c *core.Ctx) {
 
 func c14Clear(c *core.Ctx) {
 	const rule = "C14-clear"
-	sx := core.NewSymx()
 	const unhalt = "sync.UnhaltIfAffectedRows"
 	// (a) every write access to a halted flag in the whole repository
 	for _, s := range haltingSyncers {
@@ -526,7 +525,10 @@ func c14Clear(c *core.Ctx) {
 			continue
 		}
 		call := cs.Instr.(*ssa.Call)
-		ra := sx.Of(call.Call.Args[3])
+		// placeholders that travel with an error (`return 0, err` of a helper expanded in place) never reach the call
+		sxl := core.NewSymx()
+		bindLivePhis(sxl, fn, call)
+		ra := sxl.Of(call.Call.Args[3])
 		raStr := ra.String()
 		okArg := strings.HasPrefix(raStr, "(database/sql.Result).RowsAffected(") && strings.Contains(raStr, "Exec(") &&
 			strings.Contains(raStr, "DELETE FROM block WHERE num >= $1")
